@@ -21,25 +21,25 @@ type Def struct {
 }
 
 type Obligation struct {
-	Name    string
-	Class   string // index slice makeslice div nil assert-type panic ensures invariant-init invariant-pres requires assert lemma overflow cover
-	Func    string
-	Props   []string
-	Guard   string // reach term
-	Goal    string // Bool term to prove under guard
-	NDefs   int    // number of defs visible
-	Pos     string // source position (informational only)
-	Src     string
-	Cover   bool // expected sat
-	Inputs  []ModelVar
+	Name   string
+	Class  string // index slice makeslice div nil assert-type panic ensures invariant-init invariant-pres requires assert lemma overflow cover
+	Func   string
+	Props  []string
+	Guard  string // reach term
+	Goal   string // Bool term to prove under guard
+	NDefs  int    // number of defs visible
+	Pos    string // source position (informational only)
+	Src    string
+	Cover  bool // expected sat
+	Inputs []ModelVar
 	// results
-	Status  string // unsat sat unknown timeout error
-	Solver  string
-	Ms      int64
-	Model   map[string]string
-	Output  string
+	Status    string // unsat sat unknown timeout error
+	Solver    string
+	Ms        int64
+	Model     map[string]string
+	Output    string
 	ExpectSat bool
-	Raw     string // complete SMT-LIB query (raw lemmas): unsat = holds
+	Raw       string // complete SMT-LIB query (raw lemmas): unsat = holds
 }
 
 type ModelVar struct {
@@ -49,59 +49,60 @@ type ModelVar struct {
 }
 
 type FuncCtx struct {
-	eng      *Engine
-	so       *Sorts
-	mode     Mode
-	defs     []Def
-	symIdx   map[string]int
-	needed   map[string]bool
-	fresh    int
-	epoch    int
-	stateID  int
-	strLits  map[string]string
-	obls     []*Obligation
-	assertHit map[*Clause]int // call-site assertions: number of call sites matched
-	lastCall  map[string]Val  // callee name -> value returned by its latest call in the root function (spec builtin returned())
-	lastCallBlock map[string]*ssa.BasicBlock
-	inLemma       bool // this context proves a lemma: proved-lemma axioms from lemmaAxLimit on are not available
-	lemmaAxLimit  int
-	notes    []string // abstraction notes
-	notesSet map[string]bool
-	assumptions map[string]bool
-	typeIDs  map[string]int
-	fnName   string
-	oblNames map[string]int
-	specFnDeclared map[string]bool
-	specFnHeaps    map[string][]HeapKey // heaps a spec function's body reads: hidden parameters
-	immutKeys      map[string]string    // heap name -> Type.field of declared immutable fields (immutable.go)
-	tracked        []string             // names N with calls(N) in the root contract (callassert.go)
-	lastHavocBase  *State                  // the base state created by the latest havocAll (before local objects are copied back)
-	callPre        map[string]*State       // state in which the latest call of NAME started (before(NAME, E))
-	callPreArgs    map[string][]Val        // ... and its actual arguments (arg0, arg1, ... inside before())
-	preRet         map[ssa.Instruction]Val // placeholders for results of calls translated later (speceval.go preReturned)
-	axiomsAdded bool
-	inputs   []ModelVar
-	nonNil   map[string]bool
-	allAllocs []string
-	inputRefs []string
-	iters    map[ssa.Value]rangeIter
+	eng                                                      *Engine
+	so                                                       *Sorts
+	mode                                                     Mode
+	defs                                                     []Def
+	symIdx                                                   map[string]int
+	needed                                                   map[string]bool
+	fresh                                                    int
+	epoch                                                    int
+	stateID                                                  int
+	strLits                                                  map[string]string
+	obls                                                     []*Obligation
+	assertHit                                                map[*Clause]int // call-site assertions: number of call sites matched
+	whereDefinedHit                                          map[*Clause]int // where-defined postconditions: number of returns they applied at
+	lastCall                                                 map[string]Val  // callee name -> value returned by its latest call in the root function (spec builtin returned())
+	lastCallBlock                                            map[string]*ssa.BasicBlock
+	inLemma                                                  bool // this context proves a lemma: proved-lemma axioms from lemmaAxLimit on are not available
+	lemmaAxLimit                                             int
+	notes                                                    []string // abstraction notes
+	notesSet                                                 map[string]bool
+	assumptions                                              map[string]bool
+	typeIDs                                                  map[string]int
+	fnName                                                   string
+	oblNames                                                 map[string]int
+	specFnDeclared                                           map[string]bool
+	specFnHeaps                                              map[string][]HeapKey    // heaps a spec function's body reads: hidden parameters
+	immutKeys                                                map[string]string       // heap name -> Type.field of declared immutable fields (immutable.go)
+	tracked                                                  []string                // names N with calls(N) in the root contract (callassert.go)
+	lastHavocBase                                            *State                  // the base state created by the latest havocAll (before local objects are copied back)
+	callPre                                                  map[string]*State       // state in which the latest call of NAME started (before(NAME, E))
+	callPreArgs                                              map[string][]Val        // ... and its actual arguments (arg0, arg1, ... inside before())
+	preRet                                                   map[ssa.Instruction]Val // placeholders for results of calls translated later (speceval.go preReturned)
+	axiomsAdded                                              bool
+	inputs                                                   []ModelVar
+	nonNil                                                   map[string]bool
+	allAllocs                                                []string
+	inputRefs                                                []string
+	iters                                                    map[ssa.Value]rangeIter
 	globalIdx, funcIdx, inlineSeq, pureSeq, qcount, havocSeq int
-	heapKeys map[string]HeapKey
-	localObjs []localObj
-	noUserInv bool
-	mu       sync.Mutex
-	interior map[string]*Ptr
-	gerrIdx  int
-	pendingFacts []string
-	rootCon  *Contract
-	lastMapRange *ssa.Range
-	inlineDefs int
-	pureSpec   int // >0 while a Go function is unfolded inside a specification (blockCur.assume is then a no-op)
-	qdepth     int
-	addingAxioms bool
-	axiomDone map[int]bool
-	rootFn   *ssa.Function
-	stats    struct{ instrs, calls, callsContract, callsInline, callsHavoc, callsBuiltin, loops, loopsWithInv, conc int }
+	heapKeys                                                 map[string]HeapKey
+	localObjs                                                []localObj
+	noUserInv                                                bool
+	mu                                                       sync.Mutex
+	interior                                                 map[string]*Ptr
+	gerrIdx                                                  int
+	pendingFacts                                             []string
+	rootCon                                                  *Contract
+	lastMapRange                                             *ssa.Range
+	inlineDefs                                               int
+	pureSpec                                                 int // >0 while a Go function is unfolded inside a specification (blockCur.assume is then a no-op)
+	qdepth                                                   int
+	addingAxioms                                             bool
+	axiomDone                                                map[int]bool
+	rootFn                                                   *ssa.Function
+	stats                                                    struct{ instrs, calls, callsContract, callsInline, callsHavoc, callsBuiltin, loops, loopsWithInv, conc int }
 }
 
 func newFuncCtx(eng *Engine, mode Mode, name string) *FuncCtx {
@@ -311,7 +312,9 @@ func (c *FuncCtx) depsOf(i int) []string {
 }
 
 // buildQuery assembles the SMT-LIB text for one obligation.
-func (c *FuncCtx) buildQuery(o *Obligation, withModel bool) string { return c.buildQueryOpt(o, withModel, false) }
+func (c *FuncCtx) buildQuery(o *Obligation, withModel bool) string {
+	return c.buildQueryOpt(o, withModel, false)
+}
 
 // buildQueryOpt: relaxed drops the quantified axioms (used to look for candidate models when the full query is undecided).
 func (c *FuncCtx) buildQueryOpt(o *Obligation, withModel bool, relaxed bool) string {
